@@ -23,6 +23,7 @@ def build():
     # one parallel compilation for both variants
     allu = [(s, f) for v, us in units for (s, f) in us]
     objs = compile_objects(os.path.join(BUILD, PID), allu)
+    redirect_allocator([o for o, (src, fl) in zip(objs, allu) if src.startswith(REPO) and src.endswith(".cxx")])
     k = 0
     for v, us in units:
         o = objs[k:k + len(us)]; k += len(us)
@@ -39,6 +40,9 @@ def signature(rec):
         if m:
             what = {"failed to exec": "exec-failure", "was killed by signal": "signal-death", "exited with": ("exit-0" if m.group(2) == "0" else "exit-nonzero")}[m.group(1)]
             return "%s reported as %s" % (what, m.group(3))
+    if cls == "self-deadlock" and "allocator re-entered by signal handler" in d:
+        m = re.search(r"operator new/delete from ((?:tfel::system::)?[\w:~]+)", d)
+        return "allocator re-entered by signal handler in %s" % (m.group(1) if m else "?")
     if cls == "self-deadlock":
         m = re.search(r"locks mutex (\w+) which it already owns( \(from inside a signal handler)?", d)
         if m:
